@@ -377,6 +377,8 @@ func c11Families(thorough bool) []*engine.IFamily {
 				r.Fails = append(r.Fails, engine.IFail{Key: key, Msg: detail, Input: string(fn)})
 			}
 			rt.Execute(rt.Config{Horizon: 2000000}, func() {
+				// a second world in which nobody is subscribed or bound yet (created first: creating a world resets the event bus)
+				fresh := newC01WorldEv(types, false, false)
 				c := newC01WorldEv(types, true, true)
 				a := c.w.Peers["A"]
 				ti := chunk
@@ -396,11 +398,45 @@ func c11Families(thorough bool) []*engine.IFamily {
 						what  string
 						obj   any
 						photo string
+						clone any // structural copy taken before anything encoded the object
 					}
 					var snaps []snap
 					take := func(what string, o any) {
 						if o != nil && !reflect.ValueOf(o).IsNil() {
-							snaps = append(snaps, snap{what, o, world.JSON(o)})
+							cl := refl.Clone(o)
+							snaps = append(snaps, snap{what, o, world.JSON(o), cl})
+						}
+					}
+					// structural comparison first: a change that the textual form hides (a relative end time re-expressed
+					// as the equivalent absolute one) is a change of the data set all the same
+					check := func(when string) {
+						for _, sn := range snaps {
+							if !reflect.DeepEqual(sn.obj, sn.clone) {
+								fail(sn.what+" changed "+when+" (field by field)", fmt.Sprintf("was=%.300s\n now=%.300s", c11Dump(sn.clone), c11Dump(sn.obj)), fn)
+							} else if now := world.JSON(sn.obj); now != sn.photo {
+								fail(sn.what+" changed "+when, fmt.Sprintf("photo=%.400s\n now=%.400s", sn.photo, now), fn)
+							}
+						}
+					}
+					// data stored before anybody was sent it: the first serialisation (the reply to a peer's read, the
+					// notification after a later change of the data) must not touch what the application holds
+					{
+						c0 := fresh
+						if c0 != nil {
+							c0.srv[t.ft].SetData(fn, val(0))
+							take("DataCopy of a local feature taken before the data was sent for the first time", c0.srv[t.ft].DataCopy(fn))
+							check("when it was photographed")
+							a0 := c0.w.Peers["A"]
+							rc := model.CmdType{}
+							rc.SetDataForFunction(fn, reflect.New(pt).Interface())
+							a0.Deliver(a0.Datagram(world.FAddr("dA", []uint{1}, uint(2*ti+1)), c0.srv[t.ft].Address(), model.CmdClassifierTypeRead, false, nil, rc))
+							rt.WaitIdle()
+							check("after a peer read the function")
+							a0.Deliver(a0.SubscribeCall(world.FAddr("dA", []uint{1}, uint(2*ti+1)), c0.srv[t.ft].Address(), t.ft))
+							c0.srv[t.ft].SetData(fn, val(1))
+							rt.WaitIdle()
+							check("after a subscriber was notified of other data")
+							snaps = nil
 						}
 					}
 					store := func(k int) {
@@ -426,11 +462,7 @@ func c11Families(thorough bool) []*engine.IFamily {
 					r.Nontrivial++
 					for _, k := range []int{1, 2, 2, 1} {
 						store(k)
-						for _, sn := range snaps {
-							if now := world.JSON(sn.obj); now != sn.photo {
-								fail(sn.what+" changed after a later update", fmt.Sprintf("photo=%.400s\n now=%.400s", sn.photo, now), fn)
-							}
-						}
+						check("after a later update")
 					}
 				}
 			})
@@ -598,3 +630,6 @@ func init() {
 		},
 	})
 }
+
+// c11Dump renders a value field by field without calling any encoder of the data model.
+func c11Dump(v any) string { return fmt.Sprintf("%+v", refl.Plain(v)) }
